@@ -103,7 +103,7 @@ func fanoutRun(opt fanOpt) func(h []dsim.Rec) {
 
 	// endpoints: 1..3, stable peers on each
 	kinds := []int{epCustom, epTCPServer, epUDPServer, epTCPClient, epSerial}
-	neps := 1 + dsim.Choose(3)
+	neps := 1 + dsim.Choose(depth(3, 5))
 	for i := 0; i < neps; i++ {
 		e.addEndpoint(kinds[dsim.Choose(len(kinds))])
 	}
@@ -308,7 +308,7 @@ func fanoutRun(opt fanOpt) func(h []dsim.Rec) {
 	}
 
 	// writers
-	nw := 1 + dsim.Choose(4)
+	nw := 1 + dsim.Choose(depth(4, 6))
 	var items [][]fanItem
 	items = make([][]fanItem, nw)
 	for wi := 0; wi < nw; wi++ {
